@@ -131,7 +131,7 @@ def run(ctx, report):
                 bad = []
                 for fld, v in es.a[1].items():
                     v = strip(v)
-                    if v.k == "call" and v.a[0].name == "clone" and v.a[1]:
+                    if v.k == "call" and v.a[0].name in ("clone", "to_vec", "to_owned", "into", "from") and v.a[1]:
                         v = strip(v.a[1][0])
                     if not (v.k == "field" and v.a[1] == fld and strip(v.a[0]).k == "param"):
                         if fld == "phantom":
